@@ -305,14 +305,43 @@ pub fn run(tier: Tier) -> Report {
     }
     // a row is either tiny as a whole or of ordinary size: mixing 1 and 2^-60 in one row produces rows that
     // differ from an ordinary row only at the level of f64 rounding, which remove_duplicate_rows merges by design
+    // zero rows with bias -0.0 (a tautology) next to ordinary rows
+    for a in [1.0, -1.0, 0.0] {
+        for b in [-1.0, 0.0, 1.0] {
+            for (zr, zb) in [(0.0, -0.0), (tiny, -0.0), (0.0, 0.0)] {
+                gt.push(Sys { n: 1, rows: vec![(vec![a], b), (vec![zr], zb)] });
+                gt.push(Sys { n: 1, rows: vec![(vec![zr], zb), (vec![a], b)] });
+                gt.push(Sys { n: 2, rows: vec![(vec![a, 1.0], b), (vec![zr, 0.0], zb), (vec![-1.0, a], 1.0)] });
+            }
+        }
+    }
     let gt: Vec<Sys> = gt
         .into_iter()
-        .filter(|s| s.rows.iter().any(|(a, _)| a.iter().any(|v| v.abs() == tiny)))
+        .filter(|s| s.rows.iter().any(|(a, b)| a.iter().any(|v| v.abs() == tiny) || (*b == 0.0 && b.is_sign_negative())))
         .filter(|s| s.rows.iter().all(|(a, _)| !(a.iter().any(|v| v.abs() == tiny) && a.iter().any(|v| v.abs() == 1.0))))
         .collect();
     rep.set("systems_with_tiny_coefficients", gt.len() as u64);
     let t2 = par_cases(&gt, |_, s| check_system_opt(s, true, false));
     rep.absorb(t2);
+    // nearly coincident parallel rows (gap 2^-21, far above the 1e-8 containment tolerance): neither implies the
+    // other "by a margin", but the looser one is implied exactly and the tighter one is not
+    let gap = 2f64.powi(-21);
+    let mut gn = vec![];
+    for (a, b) in [(vec![1.0], 1.0), (vec![-1.0], 0.0), (vec![2.0], -1.0)] {
+        gn.push(Sys { n: 1, rows: vec![(a.clone(), b + gap), (a.clone(), b)] });
+        gn.push(Sys { n: 1, rows: vec![(a.clone(), b), (a.clone(), b + gap)] });
+        gn.push(Sys { n: 1, rows: vec![(a.clone(), b + gap), (a.iter().map(|x| -x).collect(), 3.0), (a.clone(), b)] });
+    }
+    for (a, b) in [(vec![1.0, 0.0], 1.0), (vec![1.0, 1.0], 1.0), (vec![0.0, -1.0], 0.0)] {
+        for other in [(vec![0.0, 1.0], 1.0), (vec![-1.0, -1.0], 2.0)] {
+            gn.push(Sys { n: 2, rows: vec![(a.clone(), b + gap), other.clone(), (a.clone(), b)] });
+            gn.push(Sys { n: 2, rows: vec![(a.clone(), b), other.clone(), (a.clone(), b + gap)] });
+            gn.push(Sys { n: 2, rows: vec![other.clone(), (a.clone(), b + gap), (a.clone(), b), (vec![-1.0, 0.0], 2.0), (vec![0.0, -1.0], 2.0), (vec![1.0, 1.0], 5.0)] });
+        }
+    }
+    rep.set("systems_with_nearly_coincident_rows", gn.len() as u64);
+    let t3 = par_cases(&gn, |_, s| check_system_opt(s, true, true));
+    rep.absorb(t3);
     rep.set("systems_total", g.len() as u64);
     if let Some(s) = g.get(g.len() / 3) {
         rep.samples.push(json!({"n": s.n, "rows_A_b": s.rows}));
